@@ -9,19 +9,22 @@ ASSUMPTIONS = [
     "cache lookup and recordAuthenticated are atomic steps (writers of a bucket are serialised by a lock, readers read atomically published words); statistics counters are not modelled",
     "the bucket index of a source key (maphash with a per-process seed) is an arbitrary function in the theorems and is read from the implementation for the correspondence run",
     "identity of a published generation (*state pointer equality) is modelled by a generation number; atomic.Pointer load/swap are linearizable",
+    "UDP existing-session shortcut: a session is (peer ip, peer port, user); 'the session's cipher opens the datagram' is an arbitrary predicate; C07_existing_session_shortcut_sound assumes that first segments sent from one socket address get one discovery answer D(ip, port) (a UDP socket belongs to one client = one user name and credential; cache independence of that answer is C07_cache_independent(_hinted)); sessions are not removed in the model (removal preserves the invariant); sessions outliving a reload keep their user (C07 speaks of new connections)",
     "ages are computed mod 2^32 exactly as the code does: an association older than 2^32 ticks (136 years of uptime) can look fresh; stated as C07_cache_lookup_sound_real",
 ]
 
 
 def run(ctx):
-    return [run_pair(ctx, "c07", PID, MODEL_VOS)]
+    return [run_pair(ctx, "c07", PID, MODEL_VOS),
+            run_pair(ctx, "c07e", PID, MODEL_VOS, faketime=True, timeout=900)]
 
 
 def search(ctx):
-    return [run_pair(ctx, "c07", PID, None, tier="thorough", seed=ctx.seed + 1000 + i, subdir="search%d" % i) for i in range(2)]
+    return [run_pair(ctx, "c07", PID, None, tier="thorough", seed=ctx.seed + 1000 + i, subdir="search%d" % i) for i in range(2)] + \
+           [run_pair(ctx, "c07e", PID, None, faketime=True, tier="thorough", seed=ctx.seed + 2000, subdir="searche", timeout=900)]
 
 MANIFEST = dict(
-    text="Theorems over a model of serveruser.tryState (four phases, bounded attempted set), discoverUser (retry loop over published generations) and the source-user cache (buckets x ways x user slots, uint32 ticks with wrap), for arbitrary hint/authentication predicates, arbitrary cached id lists and arbitrary cache histories; constants regenerated from /repo; the model is compared with the real code on real sealed segments (real 4-byte hint collisions, shared hashed passwords, reloads fired between attempts, injected ticks) and every case is also judged against the property text and against a cold registry.",
+    text="Theorems over a model of serveruser.tryState (four phases, bounded attempted set), discoverUser (retry loop over published generations) and the source-user cache (buckets x ways x user slots, uint32 ticks with wrap), for arbitrary hint/authentication predicates, arbitrary cached id lists and arbitrary cache histories; constants regenerated from /repo; the model is compared with the real code on real sealed segments (real 4-byte hint collisions, shared hashed passwords, reloads fired between attempts, injected ticks) and every case is also judged against the property text and against a cold registry; an end-to-end driver runs a real server Mux (UDP packet underlay and TCP) with real client Muxes on an in-memory network under virtual time - users sharing credentials, clients on one IP with different ports and on different IPs, multiplexed sessions, every order of establishment - and compares UserName()/policy of every accepted session with the model (discovery + existing-session shortcut) and with the text.",
     note="Assumes lookup/record are atomic steps and that pointer identity of generations is a number; crypto enters only as the arbitrary predicate auth. The UDP path calls Discover with requireCurrent=false: a datagram whose discovery loaded the generation before SetUsers swapped it can still be accepted under the old list (C07_discover_not_older covers discoveries that start after the reload returned).",
     technique="Coq proof (induction over phases and cache histories) + differential run of the extracted model against pkg/protocol/serveruser with real ciphers",
 )
